@@ -3,11 +3,20 @@ import MosnVerif.Lemmas.Downstream.Async
 namespace MosnVerif.Model.Downstream
 open MosnVerif.Gen.ProxyPhase MosnVerif.Gen.ProxyReason MosnVerif.Gen.ProxyRetry
 
+/-- [proxy10, fix 4e7d4a7f0] the local-reply branch of `processError` abandons a retry that is being set up: the marked
+upstream request is detached (on the machine's own states the mark is never set together with a pending local reply —
+`abandonRetry_id` —, the branch is exercised on the implementation at the worker's yield sites inside `setupRetry`) -/
+def abandonRetry (s : S) : S :=
+  if s.up.isSome && s.setupRetry then { s with up := some none, setupRetry := false } else s
+
+theorem abandonRetry_id {s : S} (h : s.setupRetry = false) : abandonRetry s = s := by
+  simp [abandonRetry, h]
+
 /-- the tail of `processError` once the reset flags have been dealt with -/
 def peTail (c : Cfg) (s1 : S) (e1 : Bool) : S × Option Phase :=
   if s1.downReset then (dsResetStream c s1, some .End)
   else if s1.direct then
-    let s2 := { s1 with direct := false, rs := none, retries := (rsReset c s1).retries }
+    let s2 := abandonRetry { s1 with direct := false, rs := none, retries := (rsReset c s1).retries }
     if c.oneway then (s2, some .Oneway)
     else if s1.phase ≠ .UpFilter then (s2, some .UpFilter)
     else (s2, none)   -- [proxy7] the response pass goes on with the local reply, whatever set `err` before (fix a3a21969e)
@@ -26,7 +35,7 @@ theorem processError_spec (c : Cfg) (s : S) :
       else if s.upReset then
         if c.oneway then (s, some .Oneway) else peTail c (onUpstreamReset c s) true
       else peTail c s false := by
-  unfold processError Gen.ProxyError.processError peTail
+  unfold processError Gen.ProxyError.processError peTail abandonRetry
   simp only [peOps, Bool.not_true, Bool.false_eq_true, if_false, id, pe_direct_state, Gen.ProxyError.detachFresh, if_true]
   by_cases hc : s.cleaned = true
   · simp [hc]
@@ -41,7 +50,8 @@ theorem processError_spec (c : Cfg) (s : S) :
         · simp only [hd, if_false]
           by_cases hdi : (onUpstreamReset c s).direct = true
           · simp only [hdi, if_true, ho, if_false]
-            by_cases hp : (onUpstreamReset c s).phase = Phase.UpFilter <;> simp [hp]
+            cases hm1 : (onUpstreamReset c s).up.isSome <;> cases hm2 : (onUpstreamReset c s).setupRetry <;>
+              by_cases hp : (onUpstreamReset c s).phase = Phase.UpFilter <;> simp [hp]
           · simp only [hdi, if_false]
             by_cases hpd : (onUpstreamReset c s).procDone = true <;>
               by_cases hr : ((onUpstreamReset c s).up.isSome && (onUpstreamReset c s).setupRetry) = true <;> simp [hpd, hr]
@@ -51,10 +61,8 @@ theorem processError_spec (c : Cfg) (s : S) :
       · simp only [hd, if_false]
         by_cases hdi : s.direct = true
         · simp only [hdi, if_true]
-          by_cases ho : c.oneway = true
-          · simp [ho]
-          · simp only [ho, if_false]
-            by_cases hp : s.phase = Phase.UpFilter <;> simp [hp]
+          cases hm1 : s.up.isSome <;> cases hm2 : s.setupRetry <;> by_cases ho : c.oneway = true <;>
+            by_cases hp : s.phase = Phase.UpFilter <;> simp [ho, hp]
         · simp only [hdi, if_false]
           by_cases hpd : s.procDone = true <;> by_cases hr : (s.up.isSome && s.setupRetry) = true <;> simp [hpd, hr]
 
